@@ -26,10 +26,16 @@ Definition mk_header (t : hdrt) : header :=
      h_last_results_hash := unhex lr; h_other := unhex hash |}.
 Definition hh_x (h : header) : bytes := h_other h.
 
-(* light block: header, Commit.Hash(), validator addresses *)
-Definition lbt := (hdrt * string * list string)%type.
+(* types.PartSetHeader: total, hash *)
+Definition psht := (Z * string)%type.
+Definition mk_psh (t : psht) : psh := {| ps_total := fst t; ps_hash := unhex (snd t) |}.
+
+(* light block: header, Commit.Hash(), Commit.BlockID (hash, part-set header), validator addresses *)
+Definition lbt := (hdrt * string * (string * psht) * list string)%type.
 Definition mk_lblock (t : lbt) : lblock :=
-  let '(h, c, vs) := t in {| lb_header := mk_header h; lb_commit := unhex c; lb_vals := map unhex vs |}.
+  let '(h, c, (ih, ip), vs) := t in
+  {| lb_header := mk_header h; lb_commit := unhex c; lb_id_hash := unhex ih; lb_id_parts := mk_psh ip;
+     lb_vals := map unhex vs |}.
 
 (* the stub light client: table served by VerifyLightBlockAtHeight, heights TrustedLightBlock
    knows, height Update returns (0: Update fails) *)
@@ -55,9 +61,10 @@ Definition mk_block (t : blockt) : block :=
   {| b_header := mk_header h; b_hdr_ok := hok; b_lc_ok := lok; b_lc_hash := unhex lch;
      b_txs := map unhex txs; b_ev_ok := eok; b_ev_hash := unhex evh |}.
 
-Definition metat := (bool * string * hdrt)%type.
+Definition metat := (bool * string * psht * hdrt)%type.
 Definition mk_meta (t : metat) : meta :=
-  let '(ok, ih, h) := t in {| m_id_ok := ok; m_id_hash := unhex ih; m_header := mk_header h |}.
+  let '(ok, ih, ip, h) := t in
+  {| m_id_ok := ok; m_id_hash := unhex ih; m_id_parts := mk_psh ip; m_header := mk_header h |}.
 
 Definition pft := (Z * Z * string * list string)%type.
 Definition mk_proof (t : pft) : proof :=
@@ -79,9 +86,10 @@ Definition call_code (c : call) : callt :=
   match c with CallVerify h => (0%N, h) | CallTrusted h => (1%N, h) | CallUpdate => (2%N, 0) end.
 
 Inductive case :=
-(* Block / BlockByHash: oracle; BlockID ok, BlockID.Hash, block; impl: relayed, LC calls;
-   honest = unmodified answer of the honest node that the light client can verify *)
-| CBlock (o : orct) (id_ok : bool) (id_hash : string) (blk : option blockt)
+(* Block / BlockByHash: oracle; BlockID ok, BlockID.Hash, BlockID.PartSetHeader, block; impl:
+   relayed, LC calls; honest = unmodified answer of the honest node that the light client can
+   verify *)
+| CBlock (o : orct) (id_ok : bool) (id_hash : string) (id_parts : psht) (blk : option blockt)
          (relayed_i : bool) (calls_i : list callt) (honest : bool)
 | CInfo (o : orct) (metas : list (option metat)) (relayed_i : bool) (calls_i : list callt) (honest : bool)
 (* Commit: requested height; impl: ok, (header hash, commit hash) returned, canonical flag *)
@@ -93,6 +101,10 @@ Inductive case :=
 (* Tx: prove flag, response, the transactions of the chain's block at the response's height *)
 | CTx (o : orct) (prove : bool) (r : txt) (block_txs : list string)
       (relayed_i : bool) (calls_i : list callt) (honest : bool)
+(* TxSearch: prove flag, the returned transactions (None: a nil entry), the transactions of the
+   chain's blocks by height *)
+| CSearch (o : orct) (prove : bool) (rs : list (option txt)) (blocks : list (Z * list string))
+          (relayed_i : bool) (calls_i : list callt) (honest : bool)
 (* ABCIQuery: KeyPathFn configured, response code, key, number of ops, height, value;
    kp_ok = the key path function succeeded; vtab / atab = outcome of ProofRuntime.VerifyValue /
    VerifyAbsence (called directly) per candidate root *)
@@ -133,15 +145,51 @@ Definition proof_eqb (a b : proof) : bool :=
   (pf_total a =? pf_total b) && (pf_index a =? pf_index b)
   && bytes_eqb (pf_leaf_hash a) (pf_leaf_hash b) && list_eqb bytes_eqb (pf_aunts a) (pf_aunts b).
 
+(* What a relayed, proven ResultTx must satisfy (clauses 3 and 12), against the stub's table and
+   the chain's block at the answer's height.  0: fine.  1: violated.  2: everything the proof can
+   establish holds — it is valid under the verified DataHash for the relayed body, Hash and Index
+   are the proof's — but the proof misstates the number of leaves and the block's transaction at
+   the relayed Index is NOT the relayed body: the class of known finding F41. *)
+Definition tx_verdict (o : orct) (r : rtx) (txs : list bytes) : N :=
+  let p := tp_proof (t_proof r) in
+  match truth o (t_height r) with
+  | None => 1%N
+  | Some l =>
+    let at_index := match nth_error_z txs (t_index r) with
+                    | Some x => bytes_eqb x (t_tx r) | None => false end in
+    if bytes_eqb (tp_root (t_proof r)) (h_data_hash (lb_header l))
+       && bytes_eqb (t_tx r) (tp_data (t_proof r))
+       && bytes_eqb (t_hash r) (Hs (t_tx r))
+       && (t_index r =? pf_index p)
+       && verify Hs (h_data_hash (lb_header l)) (Hs (t_tx r)) p
+       (* against the chain: the body is a transaction of that block, and when the proof states
+          the true number of leaves, it sits at the stated index *)
+       && existsb (bytes_eqb (t_tx r)) txs
+       && imp (pf_total p =? Z.of_nat (List.length txs)) at_index
+    then (if at_index then 0%N else 2%N)       (* ... and it must sit at the stated index anyway *)
+    else 1%N
+  end.
+
+Definition tx_verdict_v (clause : N) (n : N) : verdict :=
+  match n with 0%N => V_ok | 2%N => V_known 41 | _ => V_violation clause end.
+
+Fixpoint find_txs (blocks : list (Z * list string)) (h : Z) : list bytes :=
+  match blocks with
+  | [] => []
+  | (h', txs) :: r => if h' =? h then map unhex txs else find_txs r h
+  end.
+
 Definition check (c : case) : verdict :=
   match c with
-  | CBlock o id_ok id_hash blk relayed_i calls_i honest =>
+  | CBlock o id_ok id_hash id_parts blk relayed_i calls_i honest =>
     let orc := mk_oracle o in
-    let r := {| rb_id_ok := id_ok; rb_id_hash := unhex id_hash; rb_block := option_map mk_block blk |} in
+    let r := {| rb_id_ok := id_ok; rb_id_hash := unhex id_hash; rb_id_parts := mk_psh id_parts;
+                rb_block := option_map mk_block blk |} in
     let '(calls_m, relayed_m) := relay_block Hs hh_x orc r in
     first_of [
-      (* relayed => the block hashes to the verified header of its height, the id names it, and
-         its transactions are the ones that header commits to *)
+      (* relayed => the block hashes to the verified header of its height, the id names it and is
+         (hash and part-set header) the BlockID the verified commit is for, and its transactions
+         are the ones that header commits to *)
       viol (imp relayed_i
               match rb_block r with
               | None => false
@@ -152,6 +200,9 @@ Definition check (c : case) : verdict :=
                   bytes_eqb (hh_x (b_header b)) (hh_x (lb_header l))
                   && bytes_eqb (rb_id_hash r) (hh_x (lb_header l))
                   && bytes_eqb (txs_root Hs (b_txs b)) (h_data_hash (lb_header l))
+                  && bytes_eqb (rb_id_hash r) (lb_id_hash l)
+                  && (ps_total (rb_id_parts r) =? ps_total (lb_id_parts l))
+                  && bytes_eqb (ps_hash (rb_id_parts r)) (ps_hash (lb_id_parts l))
                 end
               end) 1;
       viol (imp honest relayed_i) 9;
@@ -169,6 +220,9 @@ Definition check (c : case) : verdict :=
                                               | None => false
                                               | Some l => bytes_eqb (hh_x (m_header m)) (hh_x (lb_header l))
                                                           && bytes_eqb (m_id_hash m) (hh_x (lb_header l))
+                                                          && bytes_eqb (m_id_hash m) (lb_id_hash l)
+                                                          && (ps_total (m_id_parts m) =? ps_total (lb_id_parts l))
+                                                          && bytes_eqb (ps_hash (m_id_parts m)) (ps_hash (lb_id_parts l))
                                               end
                                   end) ms)) 2;
       viol (imp honest relayed_i) 9;
@@ -217,30 +271,33 @@ Definition check (c : case) : verdict :=
     let orc := mk_oracle o in
     let r := mk_rtx rt in
     let txs := map unhex block_txs in
-    let p := tp_proof (t_proof r) in
     let '(calls_m, relayed_m) := if prove then relay_tx Hs orc r else ([], true) in
     first_of [
       (* relayed with proof => the proof is for the relayed body, under the DataHash of the
-         verified header at the response's height; hash and index describe that body *)
-      viol (imp (relayed_i && prove)
-              match truth o (t_height r) with
-              | None => false
-              | Some l =>
-                bytes_eqb (tp_root (t_proof r)) (h_data_hash (lb_header l))
-                && bytes_eqb (t_tx r) (tp_data (t_proof r))
-                && bytes_eqb (t_hash r) (Hs (t_tx r))
-                && (t_index r =? pf_index p)
-                && verify Hs (h_data_hash (lb_header l)) (Hs (t_tx r)) p
-                (* against the chain: the body is a transaction of that block, and when the proof
-                   states the true number of leaves, it sits at the stated index *)
-                && existsb (bytes_eqb (t_tx r)) txs
-                && imp (pf_total p =? Z.of_nat (List.length txs))
-                       match nth_error_z txs (t_index r) with
-                       | Some x => bytes_eqb x (t_tx r) | None => false end
-              end) 3;
+         verified header at the response's height; hash and index describe that body, which is
+         the transaction at that index of the chain's block (known finding 41 when only the last
+         part fails, behind a proof that misstates the number of leaves) *)
+      (if relayed_i && prove then tx_verdict_v 3 (tx_verdict o r txs) else V_ok);
       viol (imp honest relayed_i) 9;
       mism (Bool.eqb relayed_m relayed_i) 29;
       mism (calls_eqb calls_m calls_i) 30 ]
+  | CSearch o prove rs blocks relayed_i calls_i honest =>
+    let orc := mk_oracle o in
+    let rs' := map (option_map mk_rtx) rs in
+    let '(calls_m, relayed_m) := relay_search Hs orc prove rs' in
+    let vs := map (fun x => match x with
+                            | None => 1%N
+                            | Some r => tx_verdict o r (find_txs blocks (t_height r))
+                            end) rs' in
+    first_of [
+      (* relayed with proof => every returned transaction satisfies what a Tx answer must *)
+      (if relayed_i && prove
+       then (if existsb (N.eqb 1) vs then V_violation 12
+             else if existsb (N.eqb 2) vs then V_known 41 else V_ok)
+       else V_ok);
+      viol (imp honest relayed_i) 9;
+      mism (Bool.eqb relayed_m relayed_i) 39;
+      mism (calls_eqb calls_m calls_i) 40 ]
   | CQuery o has_kpfn code key nops height value kp_ok vtab atab relayed_i calls_i honest =>
     let orc := mk_oracle o in
     let r := {| q_code := code; q_key := unhex key; q_nops := nops; q_ops := []; q_height := height;
